@@ -717,6 +717,17 @@ pub fn main(out: &mut Out, o: &Opts) {
                     cases.push((collp.clone(), e.clone(), true, false));
                     cases.push((collp.clone(), e.clone(), false, true));
                 }
+                // self loops (also on a vertex that occurs nowhere else) and names whose concatenations with "_" coincide
+                let under: Vec<String> = ["a_b", "c", "a", "b_c", "b", "a_b_c", "_"].iter().map(|s| s.to_string()).collect();
+                for e in [vec![(0usize, 1usize), (1, 0), (2, 2)], vec![(2, 2)], vec![(0, 0), (1, 1)], vec![(0, 1), (1, 1), (1, 2), (2, 1), (3, 3)], vec![(0, 1), (2, 1), (3, 1)],
+                          vec![(0, 1), (1, 0), (2, 3), (3, 2), (2, 1), (1, 2)], vec![(0, 1), (2, 1), (3, 1), (2, 3), (0, 4)], vec![(5, 1), (0, 3), (2, 1)]] {
+                    for u in [true, false] {
+                        for all in [false, true] {
+                            cases.push((plain.clone(), e.clone(), u, all));
+                            cases.push((under.clone(), e.clone(), u, all));
+                        }
+                    }
+                }
                 // interleaved mentions of names equal up to case, and the doubly prefixed name next to its base name
                 for e in [vec![(0usize, 1usize), (1, 2), (0, 3)], vec![(0, 1), (1, 2), (2, 3), (3, 1), (0, 4)], vec![(4, 5)], vec![(4, 5), (5, 0), (0, 4)], vec![(1, 0), (0, 2), (1, 3), (0, 1)]] {
                     for u in [true, false] {
@@ -737,12 +748,12 @@ pub fn main(out: &mut Out, o: &Opts) {
                     let ne = 1 + rng.below(12) as usize;
                     let e: Vec<(usize, usize)> = (0..ne)
                         .map(|_| (rng.below(nv as u64) as usize, rng.below(nv as u64) as usize))
-                        .filter(|(a, b)| a != b)
+                        .filter(|(a, b)| a != b || k % 5 == 0)
                         .collect();
                     if e.is_empty() {
                         continue;
                     }
-                    let names = if k % 4 == 3 { collp.clone() } else if k % 3 == 0 { tricky.clone() } else if k % 3 == 1 { cased.clone() } else { plain.clone() };
+                    let names = if k % 7 == 6 { under.clone() } else if k % 4 == 3 { collp.clone() } else if k % 3 == 0 { tricky.clone() } else if k % 3 == 1 { cased.clone() } else { plain.clone() };
                     cases.push((names, e, rng.chance(1, 2), rng.chance(1, 3)));
                 }
                 {
